@@ -643,7 +643,7 @@ func main() {
 	case "random":
 		r := rng.FromEnv(4)
 		if thorough {
-			random(w, r, 3000, 2000)
+			random(w, r, 2000, 2000)
 		} else {
 			random(w, r, 700, 1200)
 		}
